@@ -4,6 +4,8 @@
    float("inf") is [None] in [r_start].  No proofs here. *)
 From Wh Require Export Prelude Permute PN Gens.
 From Coq Require Import NArith ZArith QArith Qreduction.
+From RecordUpdate Require Import RecordSet.
+Import RecordSetNotations.
 Local Open Scope Q_scope.
 
 Definition Qr := Qred.
@@ -17,6 +19,14 @@ Definition qabs (a : Q) : Q := if Qle_bool 0 a then a else Qred (- a).
 Definition qmin (a b : Q) : Q := if Qle_bool a b then a else b.
 Definition qmax (a b : Q) : Q := if Qle_bool a b then b else a.
 Definition Qnat (n : nat) : Q := inject_Z (Z.of_nat n).
+
+(* Rounding to a 2^-100 grid.  Exact rational regression makes numerators grow geometrically from
+   one regression to the next, which no evaluator survives; the EXECUTABLE instance of the model
+   (r_round = true, used by the correspondence check) therefore rounds the results of the regression,
+   of lerp and of the peal-speed change - thirty orders of magnitude finer than the doubles it
+   stands for.  The theorems are about the exact instance (r_round = false). *)
+Definition qround (b : bool) (q : Q) : Q :=
+  if b then Qred ((Qnum q * 2 ^ 100 / Zpos (Qden q))%Z # Pos.pow 2 100) else q.
 
 (* ---------- exp(-y) for y >= 0: fixed point, 2^-80, Taylor after halving 8 times ---------- *)
 Definition FP : Z := (2 ^ 80)%Z.
@@ -62,7 +72,7 @@ Definition peal_speed_to_blow_interval (peal_minutes : Q) (num_bells : nat) : Q 
 
 Definition lerp (a b t : Q) : Q := qadd (qmul (qsub 1 t) a) (qmul t b).
 
-Record regr := {
+Record regr := mkRegr {
   r_pref_inertia : Q;
   r_init_inertia : Q;
   r_peal_speed : Q;
@@ -75,6 +85,7 @@ Record regr := {
   r_expected : list ((nat * bool) * (nat * nat));      (* (bell, stroke) -> (row, place) *)
   r_data : list datapoint;
   r_return : bool;                                     (* _should_return_to_mainloop *)
+  r_round : bool;                                      (* see qround *)
   (* bookkeeping of the MODEL, not of the code: smallest distance of any float comparison from its
      knife edge, and whether an IEEE special value (nan) or a singular matrix was met *)
   r_margin : Q;
@@ -86,44 +97,22 @@ Definition BIG : Q := 1000000.
 Definition regr_init (inertia init_inertia peal_speed gap : Q) (mn mx : nat) : regr :=
   {| r_pref_inertia := inertia; r_init_inertia := init_inertia; r_peal_speed := peal_speed;
      r_gap := gap; r_min := mn; r_max := mx; r_stage := 0%nat; r_start := Some 0; r_interval := 0;
-     r_expected := []; r_data := []; r_return := false; r_margin := BIG; r_unsupported := false |}.
+     r_expected := []; r_data := []; r_return := false; r_round := true; r_margin := BIG;
+     r_unsupported := false |}.
+
+#[export] Instance eta_regr : Settable _ :=
+  settable! mkRegr <r_pref_inertia; r_init_inertia; r_peal_speed; r_gap; r_min; r_max; r_stage; r_start;
+                    r_interval; r_expected; r_data; r_return; r_round; r_margin; r_unsupported>.
 
 Definition upd (r : regr) (start : option Q) (interval : Q) (data : list datapoint) : regr :=
-  {| r_pref_inertia := r_pref_inertia r; r_init_inertia := r_init_inertia r;
-     r_peal_speed := r_peal_speed r; r_gap := r_gap r; r_min := r_min r; r_max := r_max r;
-     r_stage := r_stage r; r_start := start; r_interval := interval; r_expected := r_expected r;
-     r_data := data; r_return := r_return r; r_margin := r_margin r;
-     r_unsupported := r_unsupported r |}.
+  r <| r_start := start |> <| r_interval := interval |> <| r_data := data |>.
 Definition upd_expected (r : regr) (e : list ((nat * bool) * (nat * nat))) : regr :=
-  {| r_pref_inertia := r_pref_inertia r; r_init_inertia := r_init_inertia r;
-     r_peal_speed := r_peal_speed r; r_gap := r_gap r; r_min := r_min r; r_max := r_max r;
-     r_stage := r_stage r; r_start := r_start r; r_interval := r_interval r; r_expected := e;
-     r_data := r_data r; r_return := r_return r; r_margin := r_margin r;
-     r_unsupported := r_unsupported r |}.
+  r <| r_expected := e |>.
 Definition upd_cfg (r : regr) (inertia peal : Q) (stage : nat) : regr :=
-  {| r_pref_inertia := inertia; r_init_inertia := r_init_inertia r;
-     r_peal_speed := peal; r_gap := r_gap r; r_min := r_min r; r_max := r_max r;
-     r_stage := stage; r_start := r_start r; r_interval := r_interval r;
-     r_expected := r_expected r; r_data := r_data r; r_return := r_return r;
-     r_margin := r_margin r; r_unsupported := r_unsupported r |}.
-Definition upd_return (r : regr) (b : bool) : regr :=
-  {| r_pref_inertia := r_pref_inertia r; r_init_inertia := r_init_inertia r;
-     r_peal_speed := r_peal_speed r; r_gap := r_gap r; r_min := r_min r; r_max := r_max r;
-     r_stage := r_stage r; r_start := r_start r; r_interval := r_interval r;
-     r_expected := r_expected r; r_data := r_data r; r_return := b; r_margin := r_margin r;
-     r_unsupported := r_unsupported r |}.
-Definition note_margin (r : regr) (m : Q) : regr :=
-  {| r_pref_inertia := r_pref_inertia r; r_init_inertia := r_init_inertia r;
-     r_peal_speed := r_peal_speed r; r_gap := r_gap r; r_min := r_min r; r_max := r_max r;
-     r_stage := r_stage r; r_start := r_start r; r_interval := r_interval r;
-     r_expected := r_expected r; r_data := r_data r; r_return := r_return r;
-     r_margin := qmin (r_margin r) (qabs m); r_unsupported := r_unsupported r |}.
-Definition note_unsupported (r : regr) : regr :=
-  {| r_pref_inertia := r_pref_inertia r; r_init_inertia := r_init_inertia r;
-     r_peal_speed := r_peal_speed r; r_gap := r_gap r; r_min := r_min r; r_max := r_max r;
-     r_stage := r_stage r; r_start := r_start r; r_interval := r_interval r;
-     r_expected := r_expected r; r_data := r_data r; r_return := r_return r;
-     r_margin := r_margin r; r_unsupported := true |}.
+  r <| r_pref_inertia := inertia |> <| r_peal_speed := peal |> <| r_stage := stage |>.
+Definition upd_return (r : regr) (b : bool) : regr := r <| r_return := b |>.
+Definition note_margin (r : regr) (m : Q) : regr := r <| r_margin := qmin (r_margin r) (qabs m) |>.
+Definition note_unsupported (r : regr) : regr := r <| r_unsupported := true |>.
 
 (* index_to_blow_time: row*stage + place + (row // 2) * gap *)
 Definition index_to_blow_time (r : regr) (row place : nat) : Q :=
@@ -149,7 +138,10 @@ Definition add_data_point (r : regr) (row place : nat) (real_time weight : Q) : 
   else if (r_min r <=? length d3)%nat then
     match calculate_regression d3 with
     | None => Ok (note_unsupported (upd r (r_start r) (r_interval r) d3))
-    | Some (ns, ni) =>
+    | Some (ns0, ni0) =>
+        let ns := qround (r_round r) ns0 in
+        let ni := qround (r_round r) ni0 in
+        let lerp := fun a b t => qround (r_round r) (lerp a b t) in
         match r_start r with
         | Some s => Ok (upd r (Some (lerp ns s inertia)) (lerp ni (r_interval r) inertia) d3)
         | None =>
@@ -247,7 +239,7 @@ Definition regr_change_setting (r : regr) (k : skey) (v : sval) (real_time : Q) 
           | None => Ok (upd r None ni (r_data r))
           | Some s =>
               let cbt := qdiv (qsub real_time s) (r_interval r) in
-              Ok (upd r (Some (qsub real_time (qmul cbt ni))) ni (r_data r))
+              Ok (upd r (Some (qround (r_round r) (qsub real_time (qmul cbt ni)))) ni (r_data r))
           end
   | _ => Ok r
   end.
